@@ -15,6 +15,8 @@ pub enum Line
     Cat { inputs: Vec<String>, out: String },
     /// `chmod +x path`
     ChmodX(String),
+    /// `cp -p from to` (keeps the modification time and the mode of `from`)
+    CpP { from: String, to: String },
     /// `true <tag>` (the tag only makes the script text unique per rule)
     True(String),
     /// `false <tag>`
@@ -31,6 +33,7 @@ impl Line
         {
             Line::Cat { inputs, out } => format!("cat {} > {}", inputs.join(" "), out),
             Line::ChmodX(p) => format!("chmod +x {}", p),
+            Line::CpP { from, to } => format!("cp -p {} {}", from, to),
             Line::True(tag) => format!("true {}", tag),
             Line::False(tag) => format!("false {}", tag),
             Line::Kill(_tag) => "kill -KILL $$".to_string(),
@@ -340,6 +343,14 @@ pub fn eval(rules: &RuleSet, fs: &Fs) -> Eval
                     {
                         Some(e) => e.1 = true,
                         None => errored = true,
+                    }
+                },
+                Line::CpP { from, to } =>
+                {
+                    match fs.file(from)
+                    {
+                        Some(f) if !g.producer.contains_key(from) => { produced.insert(to.clone(), ((*f.data).clone(), f.exec)); },
+                        _ => errored = true,
                     }
                 },
                 Line::Cat { inputs, out } =>
